@@ -1,5 +1,6 @@
 import OrbitModel.Driver.Transport
 import OrbitModel.Model.Path
+import OrbitModel.Model.Lifecycle
 /-!
 # Driver: address lines (C14) and snapshot lines (C13)
 -/
@@ -242,7 +243,17 @@ def Full.step (f : Full) (line : String) : Full :=
   | "afterclose" =>
     let w := bump f.w
     let bad := (toks.drop 2).filter (fun t => t.endsWith "=panic" || t.endsWith "=hang")
-    { f with w := if bad.isEmpty then w else w.fail "C18" "afterclose" s!"operations on the closed store of peer {toks.getD 1 ""}: {bad}" }
+    let w := if bad.isEmpty then w else w.fail "C18" "afterclose" s!"operations on the closed store of peer {toks.getD 1 ""}: {bad}"
+    -- correspondence with the lifecycle model: on a closed store Load reports an error, everything else a harmless result
+    let modelOut (op : String) : String :=
+      let o : Orbit.Life.Op := match op with
+        | "load" => .load | "sync" => .sync | "close" => .close
+        | "put" | "add" => .write | _ => .read
+      match (Orbit.Life.step { closed := true, closeCalls := 1 } o).2 with | .ok => "ok" | .err => "err"
+    let diffs := (toks.drop 2).filter (fun t => match t.splitOn "=" with
+      | [op, r] => r != "panic" && r != "hang" && r != modelOut op
+      | _ => false)
+    { f with w := if diffs.isEmpty then w else w.fail "corr" "afterclose" s!"closed store of peer {toks.getD 1 ""}: implementation {diffs}, lifecycle model disagrees" }
   | "leak" =>
     let w := bump f.w
     let extra := parseInt (arg toks "extra")
